@@ -500,4 +500,11 @@ def _check_flat(case, d, bad, out):
             bad("flat:gc", "no gc / rmask columns although a FASTA was given")
         else:
             _check_gc(ref, seqs, bad)
+    # command-line tier (a quarter of the cases): `cnvkit.py reference -t ... [-a ...] [-f ...] [-y]` on the same files
+    if gen.pick(case, "cli", 4) == 0 and not out:
+        from vk import cli
+
+        diff = cli.reference_flat_diff(tbed, abed, fa, d, case["male_ref"])
+        if diff:
+            bad("cli:reference-flat", diff)
     return out
